@@ -1,6 +1,6 @@
 Require Import WS.Base.Bytes WS.Base.Tape.
 Require WS.Cases.C13 WS.Cases.C03 WS.Cases.C04 WS.Cases.C05 WS.Cases.C06 WS.Cases.C08 WS.Cases.C17 WS.Cases.C07r.
-Require WS.Cases.C02 WS.Cases.C10 WS.Cases.C20 WS.Cases.C12 WS.Cases.C14 WS.Cases.C15 WS.Cases.C01 WS.Cases.C09.
+Require WS.Cases.C02 WS.Cases.C10 WS.Cases.C20 WS.Cases.C12 WS.Cases.C14 WS.Cases.C15 WS.Cases.C01 WS.Cases.C09 WS.Cases.C19 WS.Cases.C16 WS.Cases.C18.
 
 Definition judge_any (kind:N) (t:tape) : tape :=
   match kind with
@@ -19,7 +19,10 @@ Definition judge_any (kind:N) (t:tape) : tape :=
   | 12 => C12.judge t
   | 14 => C14.judge t
   | 15 => C15.judge t
+  | 16 => C16.judge t
   | 17 => C17.judge t
+  | 18 => C18.judge t
+  | 19 => C19.judge t
   | 20 => C20.judge t
   | _ => v_badtape
   end.
